@@ -453,6 +453,54 @@ def run_orthotropic(col):
     col.add("C12.O5", "LinearElasticOrthotropic vs saint_venant_kirchhoff_orthotropic",
             "engineering-constant elasticity tensor == second derivative of the orthotropic SVK energy at the undeformed state with parameters from lame_converter_orthotropic",
             not bad, str(bad[:3]))
+    # Seth-Hill strain exponent k: for every k the orthotropic law with isotropic parameters is the isotropic saint_venant_kirchhoff(k), its
+    # energy and stress vanish at the undeformed state (principal-axes world: C = diag(c1, c2, c3))
+    svk_iso = it.get(base + "tensortrax.models.hyperelastic._saint_venant_kirchhoff:saint_venant_kirchhoff")
+    Cd = admodels.world_C("diag")
+    cs = [Cd[i, i] for i in range(3)]
+    at1d = {c: ONE for c in cs}
+    m_, l_ = sym("mu", True), sym("lmbda", True)
+    mus3 = [sym("mu%d" % i, True) for i in (1, 2, 3)]
+    lm6 = [sym("lm%d" % i, True) for i in range(6)]
+    ow = "constitution/tensortrax/models/hyperelastic/_saint_venant_kirchhoff_orthotropic.py saint_venant_kirchhoff_orthotropic"
+    for k, order in [(k, o) for k in (2, 0, 1, 4, -2, 3, 6) for o in ((0, 1, 2), (1, 2, 0))]:
+        def chk_iso(k=k, order=order):
+            admodels.WORLD["eig_order"] = order
+            try:
+                Wo = P(it.call(svk, [Cd], dict(mu=[m_] * 3, lmbda=[l_] * 6, r1=[1, 0, 0], r2=[0, 1, 0], r3=[0, 0, 1], k=k)))
+                Wi = P(it.call(svk_iso, [Cd], dict(mu=m_, lmbda=l_, k=k)))
+            finally:
+                admodels.WORLD["eig_order"] = None
+            return is_zero(Wo - Wi), "%s: k=%s energy differs from saint_venant_kirchhoff(k=%s) by %s" % (ow, k, k, ring.fmt(Wo - Wi, 3))
+        col.check("C12.O5", "saint_venant_kirchhoff_orthotropic(k=%s) vs saint_venant_kirchhoff(k=%s), eigenvalue order %s" % (k, k, order),
+                  "with isotropic parameters (mu_a = mu, lmbda_ab = lmbda, r = identity) the orthotropic energy equals the isotropic one for the same strain exponent", chk_iso)
+
+        def chk_k2(k=k, order=order):
+            # genuinely orthotropic parameters in the principal-axes world: the energy is mu_a E_aa^2 + 1/2 lmbda_ab E_aa E_bb with the Seth-Hill
+            # strain E_aa = f_k(c_a) of the *a-th axis*, in whatever order the eigenvalues are returned
+            admodels.WORLD["eig_order"] = order
+            try:
+                Wg = P(it.call(svk, [Cd], dict(mu=mus3, lmbda=lm6, r1=[1, 0, 0], r2=[0, 1, 0], r3=[0, 0, 1], k=k)))
+            finally:
+                admodels.WORLD["eig_order"] = None
+            if k == 0:
+                Ea = [ring.fun_atom("Log", c) * Fraction(1, 2) for c in cs]
+            else:
+                Ea = [(P(c) ** Fraction(k, 2) - ONE) / k for c in cs]
+            lam = {}
+            t = 0
+            for a in range(3):
+                for b in range(a, 3):
+                    lam[(a, b)] = lam[(b, a)] = lm6[t]
+                    t += 1
+            want = sum((mus3[a] * Ea[a] * Ea[a] for a in range(3)), ZERO) + sum((lam[(a, b)] * Ea[a] * Ea[b] * Fraction(1, 2) for a in range(3) for b in range(3)), ZERO)
+            w0 = ring.subs(Wg, at1d)
+            ds = [ring.subs(diff(Wg, c), at1d) for c in cs]
+            ok = is_zero(Wg - want) and is_zero(w0) and all(is_zero(d) for d in ds)
+            return ok, "%s: k=%s W - (mu_a E_aa^2 + lmbda_ab E_aa E_bb / 2) = %s; at C = 1: W = %s, dW/dc = %s" % (
+                ow, k, ring.fmt(Wg - want, 3), ring.fmt(w0, 3), [ring.fmt(d, 3) for d in ds])
+        col.check("C12.O5", "saint_venant_kirchhoff_orthotropic(k=%s) principal axes, eigenvalue order %s" % (k, order),
+                  "for every strain exponent the strain of axis a is f_k of the stretch along axis a (independent of the order in which eigh lists the eigenvalues); energy and stress vanish at C = 1", chk_k2)
     finish_info(col, it)
 
 
